@@ -43,4 +43,17 @@ man = {
              "Seeded changes used to validate the checks: seeded/. Design and trusted base: DESIGN.md.",
 }
 json.dump(man, open(os.path.join(HERE, "MANIFEST.json"), "w"), indent=1, ensure_ascii=False)
+# known_findings.json = concatenation of findings/Cxx.json (one file per property, edited by hand)
+allf = []
+for pid in props:
+    fp = os.path.join(HERE, "findings", pid + ".json")
+    if os.path.exists(fp):
+        for f in json.load(open(fp))["findings"]:
+            assert f["property"] == pid and f["status"] == "open" or f["status"].startswith("fixed: "), f
+            allf.append(f)
+json.dump({"comment": "Genuine defects of RobertLuptonTheGood/eups found by the checks (assembled from findings/Cxx.json by "
+           "tools/gen_manifest.py). status 'open' = recorded, not repaired: the check prints KNOWN-FINDING and exits 0 for inputs "
+           "in the class, provided the model of the registered tree reproduces the implementation's output. "
+           "status 'fixed: <commit>' suppresses nothing. Read-only at run time.",
+           "findings": allf}, open(os.path.join(HERE, "known_findings.json"), "w"), indent=1, ensure_ascii=False)
 print("claimed:", [c["property_id"] for c in checks], "unclaimed:", [x["property_id"] for x in na])
